@@ -257,8 +257,8 @@ pub fn check_tiny(case: &TinyCase, st: &mut Stats) -> Result<(), String> {
 }
 
 pub fn property() -> Property {
-    let g = G::default().with_digit_sup();
-    let g2 = G::default().with_digit_sup();
+    let g = G::default().with_digit_sup().with_pre_inline();
+    let g2 = G::default().with_digit_sup().with_pre_inline();
     let g3 = G::default().no_tables().depth(3);
     Property {
         id: "C11",
